@@ -90,6 +90,7 @@ func Value(rng *rand.Rand) []byte {
 
 var intGood = []string{"0", "1", "5", "16", "007", "+3", "24", "9223372036854775807"}
 var intBad = []string{"abc", "1.5", "1e3", " 1", "1 ", "+", "-", "0x10", "1_000", "9223372036854775808", "-9223372036854775809", "99999999999999999999999", "٣"}
+var oddPorts = []string{"3000000000", "-4294967296", "2147483648", "2147483647", "-2147483649", "70000", "0", " 10481", "10481 ", "\t10481", "10481\r\n", "10\xff481", "10481\x80", "\xfe10481"}
 var intNeg = []string{"-1", "-0", "-9223372036854775808", "-16"}
 var boolVals = []string{"0", "1", "true", "false", "True", "yes", "2", "00", "t", "FALSE"}
 
@@ -343,6 +344,15 @@ func History(rng *rand.Rand, n int, ips []string, wildPct, rawPct int) []string 
 		id := ids[rng.Intn(len(ids))]
 		hp := hostports[rng.Intn(len(hostports))]
 		lp := fmt.Sprint(10481 + rng.Intn(3))
+		// port texts a strict decimal parse and a lenient one, a 32-bit and a 64-bit one, a byte-exact and a "cleaned up" one
+		// disagree on: padded with blanks, beyond 2^31, with a stray high byte inside.  A local port is only looked at (after
+		// parsing) for a server that is not registered yet; a host port always
+		if rng.Intn(6) == 0 {
+			lp = oddPorts[rng.Intn(len(oddPorts))]
+		}
+		if rng.Intn(14) == 0 {
+			hp = []string{" 10480", "10480 ", "\t10480", "10480\r\n", "10\xff480", "10480\x80", "+10480", "2147494128", "4294977776"}[rng.Intn(9)]
+		}
 		var payload []byte
 		if rng.Intn(100) < rawPct {
 			payload = RawDatagram(rng, id)
